@@ -70,3 +70,11 @@ Example out_file_examples :
   /\ dart_out_file "/home/u/go/src/example.com/org/models" "math/big" = "stdlib_math_big.dart"
   /\ dart_out_file "/tmp/work/mod" "example.com/org/models" = "stdlib_example.com_org_models.dart".
 Proof. vm_compute. repeat split. Qed.
+
+(** the keys fromJson reads and toJson writes are those encoding/json uses (C09), in field order, and the
+    constructor has one argument per key *)
+Lemma json_keys_are_go_keys n :
+  forallb tag_supported (map sfield_of (nr_fields n)) = true ->
+  dart_json_keys n = std_keys (filter (fun f => negb (gomacro_ignored f)) (map sfield_of (nr_fields n)))
+  /\ dart_ctor_args n = map lower_first_ok (dart_json_keys n).
+Proof. intro H. unfold dart_json_keys, dart_ctor_args. rewrite (selected_keys_std _ H). split; reflexivity. Qed.
